@@ -32,6 +32,7 @@ class Outcome:
         self.sub = {}               # counter name -> int
         self.sample = None
         self.excluded = {}          # known-finding id -> count of exclusions by construction
+        self.cover = {}             # coverage-set name -> set of hashable items (merged over all cases)
 
     @property
     def ok(self):
